@@ -192,7 +192,7 @@ impl Check for C07 {
                 // 0 stands for "exactly as many as there are clients"
                 let max_active = if max_active == 0 { n } else { max_active };
                 let max_total = if max_total == 0 { n } else { max_total };
-                Case { seed, server: ServerCfg { max_total, max_active, handshake_errors: true, ep }, clients, forges, ticks, dt_us }
+                Case { seed, server: ServerCfg { max_total, max_active, handshake_errors: (seed >> 5) & 3 != 0, ep }, clients, forges, ticks, dt_us }
             })
             .boxed()
     }
@@ -206,7 +206,7 @@ impl Check for C07 {
     }
 
     fn rule(&self) -> String {
-        "case = World with a real Server and 1-4 (quick) real Clients whose configurations are generated independently (compatible or not; receive allocations and rates of 2^32 and beyond included, which are advertised saturated), each on its own link with per-datagram fates for the handshake frames (delay up to 3 s, drop, duplicate up to 5 s apart, corrupt), starting at generated ticks (simultaneous handshakes), plus late network duplicates of handshake frames that really travelled (never counted as forgeries), clients whose frames are lost for 1-30 s after they connected while a third of the servers time silent peers out after 1.5-4.5 s, and forged handshake / disconnect frames injected at generated moments with spoofed source addresses (a client's address towards the server, the server's address towards a client) carrying random nonces, genuine nonces +-1, the genuine current nonce, or the nonce of an earlier attempt. After Connect each client runs an ordered echo stream through the server, and the server may push a burst of Reliable packets larger than the client's advertised receive allocation. Monitor oracle over wire and events: server Connect(a) only after an ACK from a carrying the nonce of the latest SYN-ACK sent to a was delivered; client Connect only after a SYN-ACK echoing its SYN nonce was delivered; at most one Connect per client and per server-side connection; the server's Connect never precedes the client's, and once a client is connected and frames are delivered promptly the server reports its Connect within three SYN-ACK repeat intervals (as long as its 22 s handshake budget and the client's timeout allow); first data frame ids equal the advertised nonces; every connection the server reports was completed with the server nonce the client accepted (a connection is never re-created behind a living client's back); refusals carry the error the documented rule demands and the client reports the same error (ServerFull only when the server's limits are below the number of clients: a client is never refused on account of its own pending entry); no Error event on a client that has connected unless it is a Timeout; echo streams arrive in order without gaps for Reliable packets; bytes per second on the wire stay within min(local max_send_rate, peer max_receive_rate); the bytes the server has outstanding towards a client (fragment-rounded, judged from the wire and the acks delivered) never exceed the max_receive_alloc that client advertised. Non-trivial = at least one handshake frame was lost, duplicated, corrupted or forged. Distinct = distinct serialised case.".into()
+        "case = World with a real Server and 1-4 (quick) real Clients whose configurations are generated independently (compatible or not; receive allocations and rates of 2^32 and beyond included, which are advertised saturated), each on its own link with per-datagram fates for the handshake frames (delay up to 3 s, drop, duplicate up to 5 s apart, corrupt), starting at generated ticks (simultaneous handshakes), plus late network duplicates of handshake frames that really travelled (never counted as forgeries), clients whose frames are lost for 1-30 s after they connected while a third of the servers time silent peers out after 1.5-4.5 s, and forged handshake / disconnect frames injected at generated moments with spoofed source addresses (a client's address towards the server, the server's address towards a client) carrying random nonces, genuine nonces +-1, the genuine current nonce, or the nonce of an earlier attempt. After Connect each client runs an ordered echo stream through the server, and the server may push a burst of Reliable packets larger than the client's advertised receive allocation. Monitor oracle over wire and events: server Connect(a) only after an ACK from a carrying the nonce of the latest SYN-ACK sent to a was delivered; client Connect only after a SYN-ACK echoing its SYN nonce was delivered; at most one Connect per client and per server-side connection; the server's Connect never precedes the client's, and once a client is connected and frames are delivered promptly the server reports its Connect within three SYN-ACK repeat intervals (as long as its 22 s handshake budget and the client's timeout allow); no server Connect later than the 22 s budget of its handshake (a stale ACK creates nothing, with handshake errors reported or not); first data frame ids equal the advertised nonces; every connection the server reports was completed with the server nonce the client accepted (a connection is never re-created behind a living client's back); refusals carry the error the documented rule demands and the client reports the same error (ServerFull only when the server's limits are below the number of clients: a client is never refused on account of its own pending entry); no Error event on a client that has connected unless it is a Timeout; echo streams arrive in order without gaps for Reliable packets; bytes per second on the wire stay within min(local max_send_rate, peer max_receive_rate); the bytes the server has outstanding towards a client (fragment-rounded, judged from the wire and the acks delivered) never exceed the max_receive_alloc that client advertised. Non-trivial = at least one handshake frame was lost, duplicated, corrupted or forged. Distinct = distinct serialised case.".into()
     }
 
     fn assumptions(&self) -> Vec<String> {
@@ -431,6 +431,19 @@ impl Check for C07 {
                     Some(nonce) => acks_delivered.get(a).map_or(false, |v| v.iter().any(|(s, n)| *s < *seq && *n == nonce)),
                     None => false,
                 };
+                // the handshake budget: a pending entry lives for 1 + 10 SYN-ACK transmissions 2 s apart; an ACK that arrives
+                // later than that is a stale frame and must not create a connection (whatever the server's error-reporting
+                // option says)
+                if let Some(nonce) = latest {
+                    if let Some(t0) = w.wire.iter().find(|r| r.from == w.server_addr && r.to == *a && matches!(Frame::read(&r.bytes), Some(Frame::HandshakeSynAckFrame(f)) if f.nonce == nonce)).map(|r| r.t_us) {
+                        if *t > t0 + 22_000_000 + 4 * dt + 100_000 {
+                            return CaseResult::fail(
+                                "oracle:c07:connection_created_after_handshake_budget",
+                                format!("server reported Connect({a}) at t={t} us; the SYN-ACK of that handshake (nonce {nonce}) was first sent at t={t0} us, so its 22 s budget had long run out: a stale handshake ACK created a connection (handshake errors enabled: {})", c.server.handshake_errors),
+                            );
+                        }
+                    }
+                }
                 if !ok {
                     return CaseResult::fail(
                         "oracle:c07:server_connect_without_nonce",
